@@ -196,6 +196,9 @@ func scenGrind(base []byte, from common.Address, nonce uint64) []byte {
 	panic("harness: cannot grind contract address")
 }
 
+// init code: SSTORE(1,1) SSTORE(2,2) SSTORE(3,3), empty runtime code
+var scenStoreThree = []byte{0x60, 0x01, 0x60, 0x01, 0x55, 0x60, 0x02, 0x60, 0x02, 0x55, 0x60, 0x03, 0x60, 0x03, 0x55, 0x00}
+
 func scenMenu() []scenTx {
 	ten := new(big.Int).Mul(big.NewInt(1e18), big.NewInt(20))
 	return []scenTx{
@@ -236,6 +239,20 @@ func scenMenu() []scenTx {
 			to := s.q[2].Addr
 			amt := new(big.Int).Mul(big.NewInt(1e18), big.NewInt(30))
 			return s.n.QuaiTx(s.k[1], s.nonce(s.k[1]), &to, amt, 400000, new(big.Int).Mul(scenPrice, big.NewInt(3)), nil)
+		}},
+		// K + L: a contract is deployed at an address that already holds an account (paid by K earlier in
+		// the same block): createObject replaces an existing object, the path on which the state
+		// snapshot layer and the tries are consulted differently
+		{"K:k0 pays the address of k1's next creation (priced to run first)", func(s *scen) *types.Transaction {
+			nn := s.nonce(s.k[1])
+			code := scenGrind(scenStoreThree, s.k[1].Addr, nn)
+			to := crypto.CreateAddress(s.k[1].Addr, nn, code, core.VZoneLoc)
+			return s.n.QuaiTx(s.k[0], s.nonce(s.k[0]), &to, big.NewInt(777), 100000, new(big.Int).Mul(scenPrice, big.NewInt(6)), nil) // a transfer that creates the account costs more than 21000
+		}},
+		{"L:k1 create n+0 with three SSTOREs", func(s *scen) *types.Transaction {
+			nn := s.nonce(s.k[1])
+			code := scenGrind(scenStoreThree, s.k[1].Addr, nn)
+			return s.n.QuaiTxAL(s.k[1], nn, nil, big.NewInt(0), 400000, scenPrice, code, types.AccessList{{Address: crypto.CreateAddress(s.k[1].Addr, nn, code, core.VZoneLoc)}})
 		}},
 	}
 }
